@@ -368,7 +368,7 @@ func opJSON(o jsonOp) map[string]interface{} {
 var smallDocs = []string{
 	`{}`,
 	`{"publicKey":[{"id":"k1","type":"JsonWebKey2020","purposes":["authentication"],"publicKeyJwk":{"kty":"EC","crv":"P-256","x":"x","y":"y"}}],"service":[{"id":"s1","type":"T","serviceEndpoint":"https://e.example.com"}]}`,
-	`{"publicKey":[{"id":"k1","type":"JsonWebKey2020","publicKeyJwk":{"kty":"EC","crv":"P-256","x":"x","y":"y"}}],"service":[{"id":"s1","type":"T","serviceEndpoint":"https://e.example.com"}],"other":{"deep":{"er":1}},"arr":[1,2,3],"nul":null,"a/b":1}`,
+	`{"publicKey":[{"id":"k1","type":"JsonWebKey2020","publicKeyJwk":{"kty":"EC","crv":"P-256","x":"x","y":"y"}}],"service":[{"id":"s1","type":"T","serviceEndpoint":"https://e.example.com"}],"other":{"deep":{"er":1}},"arr":[1,2,3],"nul":null,"a/b":{"n":1},"~1":{"k":"v"},"/0":[1]}`,
 	`{"service":[{"id":"s1","type":"T","serviceEndpoint":"https://e.example.com"}],"other":"str","arr":[],"nul":null}`,
 	`{"publicKey":[],"other":[{"x":null}],"arr":[[1],[2]]}`,
 	`{"other":{"deep":null},"arr":[null],"alsoKnownAs":["https://a.example.com"]}`,
@@ -703,6 +703,6 @@ func C18(c *ev.Ctx) {
 	c.Cov.Extra["accepted_patch_applications"] = applied
 	c.Cov.Extra["applications_returning_a_document"] = applyOK
 	c.Cov.Extra["valid_cases_rejected_by_validator"] = stricter
-	c.Cov.Rule = "PatchRules.tla: baseline of each patch kind + every combination of <= MaxDev rule deviations (id class - the class badChar is realised as every ASCII character outside [A-Za-z0-9_-] at the start / middle / end of an id plus non-ASCII letters -, duplicate id, key type x purposes, key material, unknown member, missing type, service type length, endpoint forms (incl. scheme-less references, numbers / booleans, arrays holding them, non-URIs one array deeper; 8 concrete instances per class), entry-list shapes (a non-object entry first / last, entries one array deeper, a section that is no array; in add-* and replace patches), remove-id / URI list classes, replace document contents, action enabled); verdict: the real ValidateDelta must not accept a case Valid() rejects. JSON patches: all single RFC 6902 operations over 7 ops x 18 path classes x 9 from classes x 3 value classes (null members included), alone and preceded by the aliasing first operation {copy /other -> /copied} (thorough: by 5 state-setting first operations). Every accepted patch is applied by the real composer to 6 small documents in a crash-isolated child process: no panic / crash / hang, and an accepted JSON patch must leave the public-key and service sections untouched."
+	c.Cov.Rule = "PatchRules.tla: baseline of each patch kind + every combination of <= MaxDev rule deviations (id class - the class badChar is realised as every ASCII character outside [A-Za-z0-9_-] at the start / middle / end of an id plus non-ASCII letters -, duplicate id, key type x purposes, key material, unknown member, missing type, service type length, endpoint forms (incl. scheme-less references, numbers / booleans, arrays holding them, non-URIs one array deeper; 8 concrete instances per class), entry-list shapes (a non-object entry first / last, entries one array deeper, a section that is no array; in add-* and replace patches), remove-id / URI list classes, replace document contents, action enabled); verdict: the real ValidateDelta must not accept a case Valid() rejects. JSON patches: all single RFC 6902 operations over 7 ops x 31 path classes (incl. RFC 6901 escapes of members named ~1 and a/b) x 13 from classes x 3 value classes (null members included), alone and preceded by the aliasing first operation {copy /other -> /copied} (thorough: by 5 state-setting first operations). Every accepted patch is applied by the real composer to 6 small documents in a crash-isolated child process: no panic / crash / hang, and an accepted JSON patch must leave the public-key and service sections untouched."
 	c.Finish("model_checking")
 }
